@@ -14,6 +14,7 @@ import (
 	"github.com/cockroachdb/errors"
 	"github.com/cockroachdb/redact"
 	"github.com/getsentry/sentry-go"
+	pkgerrors "github.com/pkg/errors"
 )
 
 // C15 — the Sentry report is faithful to the error's structure.
@@ -26,13 +27,14 @@ func (c15) ID() string { return "C15" }
 func (c15) Rule() string {
 	return "each run: seeded tree (regular strings; 0..n stack-carrying layers of the library and of pkg/errors, multi-cause nodes, trees without any stack), observed locally and after " +
 		"each of 1..4 hops between knowing processes (where stacks are re-parsed from text); oracle recomputed from public accessors over an independent pre-order walk: message prefix " +
-		"(one-line source + redacted verbose rendering), one composition line per layer, one exception per stack-carrying layer (outermost first, frames deep-equal, domain as module; " +
+		"(one-line source = most recent frame of the innermost stack on the single-cause spine + redacted verbose rendering), an exception for every live StackTrace() layer (application-defined type included), " +
+		"in 1/3 of the deliveries the received error re-wrapped by the relay with a live stack (mixed live/re-parsed chain), one composition line per layer, one exception per stack-carrying layer (outermost first, frames deep-equal, domain as module; " +
 		"one synthetic exception when none), one 'error types' line per layer; nil gives nothing; distinct = (constructor-shape signature x route length); non-trivial = >= 2 layers"
 }
 
 func (c15) Run(t *tape.Tape, tier Tier) *Result {
 	res := &Result{}
-	cfg := gen.Config{Alpha: gen.Regular, Swarm: true, MaxDepth: 6, MaxNodes: 12, Boost: gen.GStack | gen.GMulti, BoostFactor: 2}
+	cfg := gen.Config{Alpha: gen.Regular, Swarm: true, MaxDepth: 6, MaxNodes: 12, Boost: gen.GStack | gen.GMulti, BoostFactor: 2, UserStack: true}
 	if tier == Thorough {
 		cfg.MaxDepth, cfg.MaxNodes = 7, 20
 	}
@@ -60,7 +62,11 @@ func (c15) Run(t *tape.Tape, tier Tier) *Result {
 	// the report of a transferred copy (whose stacks are re-parsed from their
 	// printed form) must show the same frames
 	var originFrames []string
-	check := func(e error, where string) {
+	// a layer of an application-defined type with StackTrace() loses its
+	// stack on the wire (nothing transfers it): the comparison of local and
+	// transferred frames does not apply to such trees
+	userStack := spec.HasKind(func(k gen.Kind) bool { return k == gen.WUStack })
+	check := func(e error, where string, rewrapped bool) {
 		p := obs.S(func() string {
 			ev, extras := errors.BuildSentryReport(e)
 			if ev == nil {
@@ -85,6 +91,53 @@ func (c15) Run(t *tape.Tape, tier Tier) *Result {
 				}
 				if len(comp) != len(layers) {
 					res.add(Violation{Prop: "C15", Oracle: "composition-line-per-layer", Culprit: typeOfLayer(layers[0]), Expected: fmt.Sprint(len(layers), " lines"), Observed: fmt.Sprint(len(comp), " lines: ", short(strings.Join(comp, " / "))), Where: where})
+				}
+			}
+			// --- the source prefix names the innermost recorded stack of the
+			// single-cause spine (its most recent call frame), computed here
+			// from the per-layer reportable stacks, not from GetOneLineSource
+			wantSrc := ""
+			for c := e; c != nil; c = errors.UnwrapOnce(c) {
+				if st := errors.GetReportableStackTrace(c); st != nil && len(st.Frames) > 0 {
+					f := st.Frames[len(st.Frames)-1]
+					path := strings.ReplaceAll(f.AbsPath, "\\", "/")
+					wantSrc = fmt.Sprintf("%s:%d: ", path[strings.LastIndexByte(path, '/')+1:], f.Lineno)
+				}
+			}
+			if wantSrc != prefix && !(wantSrc == "" || strings.HasPrefix(wantSrc, ":")) {
+				res.add(Violation{Prop: "C15", Oracle: "source-is-innermost-stack", Culprit: typeOfLayer(layers[0]), Expected: wantSrc, Observed: prefix, Where: where})
+			}
+			// --- every layer that exposes a live pkg/errors-style stack
+			// (StackTrace() with at least one frame) has an exception whose
+			// frames are that stack, oldest call first
+			type tracer interface{ StackTrace() pkgerrors.StackTrace }
+			for _, n := range layers {
+				tr, ok := n.Err.(tracer)
+				if !ok || len(tr.StackTrace()) == 0 {
+					continue
+				}
+				pst := tr.StackTrace()
+				var wantLines []string
+				for i := len(pst) - 1; i >= 0; i-- {
+					wantLines = append(wantLines, fmt.Sprintf("%d", pst[i]))
+				}
+				found := false
+				var seen []string
+				for _, exc := range ev.Exception {
+					if exc.Stacktrace == nil {
+						continue
+					}
+					var lines []string
+					for _, f := range exc.Stacktrace.Frames {
+						lines = append(lines, fmt.Sprint(f.Lineno))
+					}
+					seen = append(seen, strings.Join(lines, ","))
+					if strings.Join(lines, ",") == strings.Join(wantLines, ",") {
+						found = true
+					}
+				}
+				if !found {
+					res.add(Violation{Prop: "C15", Oracle: "exception-for-live-stack", Culprit: typeOfLayer(n), Expected: "an exception with frame lines " + short(strings.Join(wantLines, ",")), Observed: short(strings.Join(seen, " / ")), Where: where})
 				}
 			}
 			// --- exceptions
@@ -119,6 +172,8 @@ func (c15) Run(t *tape.Tape, tier Tier) *Result {
 			}
 			if where == "origin (local)" {
 				originFrames = frames
+			} else if rewrapped || userStack {
+				res.count("frames-vs-origin-not-applicable", 1)
 			} else if fmt.Sprint(frames) != fmt.Sprint(originFrames) {
 				idx := 0
 				for idx < len(frames) && idx < len(originFrames) && frames[idx] == originFrames[idx] {
@@ -162,7 +217,7 @@ func (c15) Run(t *tape.Tape, tier Tier) *Result {
 			res.add(Violation{Prop: "C15", Oracle: "report-panics", Culprit: obs.PanicSite(p), Expected: "no panic", Observed: short(p), Where: where})
 		}
 	}
-	check(e0, "origin (local)")
+	check(e0, "origin (local)", false)
 	m1, p := obs.Encode(e0)
 	route := drawRoute(t, nproc, 4)
 	foreign := false
@@ -205,7 +260,22 @@ func (c15) Run(t *tape.Tape, tier Tier) *Result {
 		}
 		sim.Logf("check hop %d", d.Msg.Hop)
 		if d.Msg.Flow == 0 {
-			check(d.Err, where)
+			check(d.Err, where, false)
+			// a relay annotates what it received before passing it on: live
+			// stacks outside, re-parsed stacks inside
+			if t.Bool(1, 3) {
+				var e2 error
+				switch t.Draw(3) {
+				case 0:
+					e2 = rewrapStack(d.Err)
+				case 1:
+					e2 = rewrapWrap(d.Err)
+				default:
+					e2 = gen.NewUWrapStack(d.Err, "relay")
+				}
+				sim.Stats.Faults["rewrapped-at-relay"]++
+				check(e2, where+" (re-wrapped by the relay)", true)
+			}
 		}
 		if foreign {
 			k := frameKey{d.Proc.ID, d.Msg.Hop}
@@ -236,6 +306,12 @@ func (c15) Run(t *tape.Tape, tier Tier) *Result {
 	res.Key = fmt.Sprintf("%s|%d", spec.Shape(), len(route))
 	return res
 }
+
+//go:noinline
+func rewrapStack(e error) error { return errors.WithStack(e) }
+
+//go:noinline
+func rewrapWrap(e error) error { return errors.Wrap(e, "relay") }
 
 // foreignPaths rewrites the printed stacks inside the reportable payloads of
 // an encoded error so that every source path starts with "C:" (as captured
